@@ -1,10 +1,179 @@
-(* C10_Spec.v — placeholder, replaced below *)
+(* C10_Spec.v — the property C10 as an executable predicate over ONE observed write: the cell diff
+   of the table (row, column, where the new value came from) and the error flag.  Written from the
+   property text; it does not run SelectAndOmitColumns / ConvertToAssignments / ConvertToCreateValues
+   (C10_Model.select_and_omit, assign_struct, assign_map, create_fields, ...).  Select/Omit are read
+   declaratively: an item NAMES a field ("*" and "tbl.*" name every field, a bare name names the
+   field with that Go name or column name, "tbl.col" the field with that column).
+   Shared vocabulary from C10_Model: field descriptors with their tags and the permission flags
+   [creatable]/[updatable]/[has_col] (checked against gorm's own parse by the correspondence),
+   payload zero bits, cells.  No proofs here. *)
 From Verif Require Import Base C10_Model.
 Open Scope Z_scope.
+
 Definition src_eqb (a b : src) : bool :=
   match a, b with KNow, KNow | KPay, KPay | KOther, KOther => true | _, _ => false end.
 Definition cell_eqb (a b : cell) : bool :=
   (c_row a =? c_row b) && String.eqb (c_col a) (c_col b) && src_eqb (c_src a) (c_src b).
+
+(* ---- Select / Omit, read declaratively ------------------------------------------------------ *)
+Definition names (table : string) (f : field) (it : sitem) : bool :=
+  match it with
+  | SStar => true
+  | SName n => String.eqb n (f_name f) || String.eqb n (f_db f)
+  | STab tbl col => String.eqb tbl table && String.eqb col (f_db f)
+  | STabStar tbl => String.eqb tbl table
+  end.
+Definition listed (table : string) (items : list sitem) (f : field) : bool :=
+  existsb (names table f) items.
+Definition selected (table : string) (selects : list sitem) (f : field) : bool :=
+  match selects with [] => true | _ => listed table selects f end.
+
+(* ---- what an operation is -------------------------------------------------------------------- *)
+Inductive shape := ShStruct | ShMap | ShSave.
+Definition update_shape (o : op) : option (shape * bool) :=       (* payload shape, hooks run? *)
+  match o with
+  | OUpdatesStruct => Some (ShStruct, true)
+  | OUpdateColumnsStruct => Some (ShStruct, false)
+  | OUpdatesMap => Some (ShMap, true)
+  | OUpdateColumnsMap => Some (ShMap, false)
+  | OSave => Some (ShSave, true)
+  | _ => None
+  end.
+
+Definition tracked_update (f : field) : bool := match f_auto f with AUpdate => true | _ => false end.
+Definition tracked (f : field) : bool := match f_auto f with ANone => false | _ => true end.
+Definition key_given (p : payload) (f : field) : bool :=
+  existsb (fun e => String.eqb (fst e) (f_name f) || String.eqb (fst e) (f_db f)) (snd p).
+
+(* the payload offers field f: struct -> its value is non-zero; map -> f is one of the keys; Save -> always *)
+Definition offered (sh : shape) (p : payload) (f : field) : bool :=
+  match sh with
+  | ShStruct => negb (p_zero p f)
+  | ShMap => key_given p f
+  | ShSave => true
+  end.
+
+(* the payload part of the write set: struct -> non-zero fields, or exactly the listed ones when a
+   Select is given; map -> the given keys that are selected; Save -> every selected field *)
+Definition payload_part (table : string) (sh : shape) (selects : list sitem) (p : payload) (f : field) : bool :=
+  match sh, selects with
+  | ShStruct, [] => offered sh p f
+  | ShStruct, _ => listed table selects f
+  | _, _ => offered sh p f && selected table selects f
+  end.
+
+(* an UPDATE may write column f / must write column f *)
+Definition may_update (table : string) (sh : shape) (hooks : bool) (selects omits : list sitem)
+           (p : payload) (f : field) : bool :=
+  has_col f && updatable f && negb (listed table omits f)
+  && (payload_part table sh selects p f || (hooks && tracked_update f)).
+Definition must_update (table : string) (sh : shape) (hooks : bool) (selects omits : list sitem)
+           (p : payload) (f : field) : bool :=
+  may_update table sh hooks selects omits p f && negb (f_pk f).
+(* where the value comes from: a tracked update-time field is refreshed (NowFunc) by every
+   hook-running update unless the payload gives it (map key), and never by the column updates *)
+Definition update_src_ok (sh : shape) (hooks : bool) (p : payload) (f : field) (k : src) : bool :=
+  match k with
+  | KNow => hooks && tracked_update f && negb (match sh with ShMap => key_given p f | _ => false end)
+  | KPay => negb (hooks && tracked_update f) || match sh with ShMap => key_given p f | _ => false end
+  | KOther => false
+  end.
+
+(* an INSERT may / must write column f of a new row *)
+Definition may_insert (table : string) (selects omits : list sitem) (f : field) : bool :=
+  has_col f && creatable f && negb (listed table omits f)
+  && (selected table selects f || tracked f).
+Definition must_insert (table : string) (is_map : bool) (selects omits : list sitem) (p : payload) (f : field) : bool :=
+  has_col f && creatable f && negb (listed table omits f) && selected table selects f && negb (f_pk f)
+  && (negb is_map || key_given p f).
+Definition insert_src_ok (f : field) (k : src) : bool :=
+  match k with KNow => tracked f | KPay => true | KOther => false end.
+
+Definition field_of (s : schema) (c : string) : option field :=
+  find (fun f => has_col f && String.eqb (f_db f) c) s.
+Definition has_cell (cells : list cell) (row : Z) (c : string) : bool :=
+  existsb (fun x => (c_row x =? row) && String.eqb (c_col x) c) cells.
+Definition in_rows (stored : list Z) (model_key : Z) (where_ids : option (list Z)) (id : Z) : bool :=
+  mem_z id stored && ((model_key =? 0) || (id =? model_key))
+  && match where_ids with None => true | Some l => mem_z id l end.
+Definition is_new (row : Z) : bool := 1000 <? row.
+
+(* ---- updates: only permitted, selected columns of exactly the targeted rows; required ones did --- *)
+Definition spec_update (s : schema) (table : string) (sh : shape) (hooks : bool)
+           (selects omits : list sitem) (p : payload) (rows : list Z) (cells : list cell) : bool :=
+  forallb (fun x =>
+             mem_z (c_row x) rows
+             && match field_of s (c_col x) with
+                | Some f => may_update table sh hooks selects omits p f && update_src_ok sh hooks p f (c_src x)
+                | None => false
+                end) cells
+  && forallb (fun r => forallb (fun f => negb (must_update table sh hooks selects omits p f)
+                                          || has_cell cells r (f_db f)) s) rows.
+
+(* ---- inserts ------------------------------------------------------------------------------------ *)
+Definition spec_new_rows (s : schema) (table : string) (is_map : bool) (selects omits : list sitem)
+           (ps : list payload) (cells : list cell) : bool :=
+  forallb (fun x =>
+             is_new (c_row x) && (c_row x <=? 1000 + Z.of_nat (length ps))
+             && match field_of s (c_col x) with
+                | Some f => may_insert table selects omits f && insert_src_ok f (c_src x) && negb (f_pk f)
+                | None => false
+                end) cells
+  && forallb (fun ip =>
+                forallb (fun f => negb (must_insert table is_map selects omits (snd ip) f)
+                                  || has_cell cells (fst ip) (f_db f)) s)
+             (combine (map (fun i => 1001 + Z.of_nat i) (seq 0 (length ps))) ps).
+
+(* ON CONFLICT DO UPDATE on the stored row [id]: only columns with create AND update permission *)
+Definition spec_conflict (s : schema) (table : string) (o : op) (selects omits : list sitem)
+           (p : payload) (cells : list cell) : bool :=
+  forallb (fun x =>
+             (c_row x =? fst p)
+             && match field_of s (c_col x) with
+                | Some f => may_insert table selects omits f && updatable f && negb (f_pk f)
+                            && insert_src_ok f (c_src x)
+                            && match o with
+                               | OUpsertNothing => false
+                               | OUpsertCols cols => existsb (String.eqb (f_db f)) cols
+                               | _ => true
+                               end
+                | None => false
+                end) cells
+  && match o with
+     | OUpsertCols cols => forallb (fun c => has_cell cells (fst p) c) cols
+     | OUpsertNothing => true
+     | _ => forallb (fun f => negb (must_insert table false selects omits p f && updatable f
+                                    && negb (match f_auto f with ACreate => true | _ => false end))
+                              || has_cell cells (fst p) (f_db f)) s
+     end.
+
+Definition all_new (cells : list cell) : bool := forallb (fun x => is_new (c_row x)) cells.
+
 Definition spec_case (s : schema) (table : string) (o : op) (selects omits : list sitem)
   (ps : list payload) (stored : list Z) (model_key : Z) (where_ids : option (list Z))
-  (cells : list cell) (err : bool) : bool := true.
+  (cells : list cell) (err : bool) : bool :=
+  let p := match ps with p :: _ => p | [] => (0, []) end in
+  if err then match cells with [] => true | _ => false end      (* a failed statement writes nothing *)
+  else
+  match o with
+  | OCreate | OCreateBatch => spec_new_rows s table false selects omits ps cells
+  | OCreateMap => spec_new_rows s table true selects omits [p] cells
+  | OUpsertAll | OUpsertNothing | OUpsertCols _ =>
+      if all_new cells && negb (match cells with [] => true | _ => false end)
+      then spec_new_rows s table false selects omits [p] cells
+      else spec_conflict s table o selects omits p cells
+  | OSave =>
+      if mem_z (fst p) stored
+      then spec_update s table ShSave true selects omits p [fst p] cells
+      else match cells with
+           | [] => true      (* key not stored: nothing, or (C16) the value is inserted *)
+           | _ => spec_new_rows s table false selects omits [p] cells
+           end
+  | OUpdatesStruct | OUpdateColumnsStruct | OUpdatesMap | OUpdateColumnsMap =>
+      match update_shape o with
+      | Some (sh, hooks) =>
+          spec_update s table sh hooks selects omits p
+                      (filter (in_rows stored model_key where_ids) stored) cells
+      | None => false
+      end
+  end.
